@@ -464,7 +464,7 @@ func (e *Engine) VerifyFunc(c *Contract) {
 	}
 	// a ghost assert whose program point was never reached guards nothing: the anchor (call) disappeared
 	for _, a := range c.Asserts {
-		if e.applies(&Clause{Props: a.Props}) && !fc.firedWhere[a.Where] {
+		if e.applies(&Clause{Props: a.Props}) && !fc.firedWhere[a.Where] && !strings.HasSuffix(a.Where, ".break") {
 			e.addObl(&Obligation{Name: fmt.Sprintf("%s#assert-anchor(%s)", name, a.Where), Kind: "assert", Func: name, Goal: False, Hyps: nil,
 				Verdict: "sat", Solver: "engine", Note: "ghost assert `" + a.Text + "` is attached to program point `" + a.Where + "`, which does not occur in the function any more"})
 		}
